@@ -56,6 +56,20 @@ func (b *UnfinalizedBlocks) KeepBlocksUpTo(headerHash types.HeaderHash) {
 	b.blocks = b.blocks[:foundIdx+1]
 }
 
+// snapshot returns a copy of the block list.
+func (b *UnfinalizedBlocks) snapshot() []types.Block {
+	b.mu.RLock()
+	defer b.mu.RUnlock()
+	return append([]types.Block(nil), b.blocks...)
+}
+
+// restore replaces the block list with a copy of blocks.
+func (b *UnfinalizedBlocks) restore(blocks []types.Block) {
+	b.mu.Lock()
+	defer b.mu.Unlock()
+	b.blocks = append(make([]types.Block, 0, 2*types.EpochLength), blocks...)
+}
+
 // Get all ancient blocks
 func (b *UnfinalizedBlocks) GetAllAncientBlocks() []types.Block {
 	b.mu.RLock()
